@@ -119,6 +119,11 @@ M("C01", "revert-fix-strict-body-encode", "breaking",
   "W7:server.protocol:GeminiServerProtocol._send_response:encode-may-escape")
 M("C01", "strict-body-encode-but-contained", "benign",
   [(P, SR, "                body = response.body.encode(\"utf-8\", errors=\"replace\")\n", "                try:\n                    body = response.body.encode(\"utf-8\")\n                except UnicodeEncodeError:\n                    body = response.body.encode(\"utf-8\", errors=\"replace\")\n")])
+M("C01", "revert-fix-cancelled-task", "breaking",
+  [(P, "GeminiServerProtocol._handle_titan_upload_result", "        except (Exception, asyncio.CancelledError) as e:", "        except Exception as e:")],
+  "W6:server.protocol:GeminiServerProtocol._handle_titan_upload_result:cancelled-task")
+M("C01", "cancelled-task-guarded-by-test", "benign",
+  [(P, "GeminiServerProtocol._handle_titan_upload_result", "        except (Exception, asyncio.CancelledError) as e:", "        except BaseException as e:")])
 M("C01", "encode-after-header-write", "breaking",
   [(P, SR, "        self.transport.write(header)\n        if body:\n            self.transport.write(body)\n",
     "        self.transport.write(header)\n        if body:\n            self.transport.write(response.body.encode('utf-8') if isinstance(response.body, str) else body)\n")],
@@ -149,7 +154,7 @@ M("C01", "deny-empty-unanswered", "breaking",
     "            self._send_error_response(StatusCode.TEMPORARY_FAILURE, \"Request rejected\")\n", "            pass\n")],
   "orphan")
 M("C01", "callback-narrow-except", "breaking",
-  [(P, "GeminiServerProtocol._handle_async_handler_result", "        except Exception as e:", "        except ValueError as e:")],
+  [(P, "GeminiServerProtocol._handle_async_handler_result", "        except (Exception, asyncio.CancelledError) as e:", "        except ValueError as e:")],
   "W6:server.protocol:GeminiServerProtocol._handle_async_handler_result:unfunnelled")
 M("C01", "rate-limit-header-malformed", "breaking",
   [("server/middleware.py", "RateLimiter.process_request", 'f"44 Rate limit exceeded. Retry after {retry_after} seconds\\r\\n"', 'f"44 Rate limit exceeded.\\nRetry after {retry_after} seconds\\r\\n"')],
@@ -937,3 +942,57 @@ M("C01", "benign-phase-string-instead-of-flag", "benign", _PHASE)
 M("C07", "phase-string-not-advanced", "breaking",
   [e for e in _PHASE if e[1] != DR or "if self.phase" in e[3]] + [(P, DR, "                self.awaiting_titan_content = False\n", "")],
   "S1:server.protocol:GeminiServerProtocol.data_received:double-dispatch")
+
+# ---------------------------------------------------------------- round f rules
+RSP = "protocol/response.py"
+_POST_DECODE = ("    url: str | None = None\n\n    def is_success(self)",
+                "    url: str | None = None\n\n    def __post_init__(self) -> None:\n        if isinstance(self.body, bytes) and (self.meta or '').startswith('text/'):\n            object.__setattr__(self, 'body', self.body.decode(self.charset, errors='replace'))\n\n    def is_success(self)")
+_POST_BYTES = ("    url: str | None = None\n\n    def is_success(self)",
+               "    url: str | None = None\n\n    def __post_init__(self) -> None:\n        if isinstance(self.body, (bytearray, memoryview)):\n            object.__setattr__(self, 'body', bytes(self.body))\n\n    def is_success(self)")
+M("C06", "response-post-init-decodes-body", "breaking", [(RSP, "GeminiResponse", *_POST_DECODE)], "R10:protocol.response:GeminiResponse.__post_init__:response-field-rewritten:body")
+M("C18", "response-post-init-decodes-body", "breaking", [(RSP, "GeminiResponse", *_POST_DECODE)], "Z12:protocol.response:GeminiResponse.__post_init__:response-field-rewritten:body")
+M("C06", "benign-response-post-init-bytes", "benign", [(RSP, "GeminiResponse", *_POST_BYTES)])
+M("C18", "benign-response-post-init-bytes", "benign", [(RSP, "GeminiResponse", *_POST_BYTES)])
+M("C06", "response-post-init-strips-meta", "breaking",
+  [(RSP, "GeminiResponse", "    url: str | None = None\n\n    def is_success(self)", "    url: str | None = None\n\n    def __post_init__(self) -> None:\n        self.meta = self.meta.strip()\n\n    def is_success(self)")],
+  "R10:protocol.response:GeminiResponse.__post_init__:response-field-rewritten:meta")
+M("C18", "charset-only-second-part", "breaking",
+  [(RSP, "GeminiResponse.charset", "        for part in parts[1:]:  # Skip the MIME type itself\n", "        for part in parts[1:2]:  # Skip the MIME type itself\n")],
+  "Z11:protocol.response:GeminiResponse.charset:charset-fixed-position")
+M("C13", "client-charset-first-param-only", "breaking",
+  [(CP, CL, "                    for part in (self.meta or \"\").split(\";\"):\n                        part = part.strip()\n                        if part.lower().startswith(\"charset=\"):\n                            charset = part.split(\"=\", 1)[1].strip().strip(\"\\\"'\")\n",
+    "                    part = (self.meta or \"\").split(\";\", 2)[1].strip()\n                    if part.lower().startswith(\"charset=\"):\n                        charset = part.split(\"=\", 1)[1].strip().strip(\"\\\"'\")\n")],
+  "E9:client.protocol:GeminiClientProtocol.connection_lost:charset-fixed-position")
+M("C19", "server-strips-received-line", "breaking",
+  [(P, DR, "                    url = url_line.decode(\"utf-8\")\n", "                    url = url_line.decode(\"utf-8\").strip()\n")],
+  "N6:server.protocol:GeminiServerProtocol")
+M("C08", "server-lowercases-received-line", "breaking",
+  [(P, "GeminiServerProtocol._handle_gemini_request", "            request = GeminiRequest.from_line(url)\n", "            request = GeminiRequest.from_line(url.lower())\n")],
+  "V8:server.protocol:GeminiServerProtocol._handle_gemini_request:line-rewritten")
+M("C19", "benign-strip-only-in-log", "benign",
+  [(P, DR, "                # Protocol detection: Titan vs Gemini\n", "                logger.debug(\"request_line\", line=url.strip()[:80])\n")])
+M("C08", "validate-measures-normalised-form", "breaking",
+  [(UU, "validate_url", "    parse_url(url)\n", "    if len(parse_url(url).normalized.encode(\"utf-8\")) + 2 > MAX_REQUEST_SIZE:\n        raise ValueError(\"URL too long\")\n")],
+  "V4:utils.url:validate_url:limit-on-derived")
+M("C08", "benign-validate-measures-through-locals", "benign",
+  [(UU, "validate_url", "    if len(url.encode(\"utf-8\")) + 2 > MAX_REQUEST_SIZE:  # +2 for CRLF\n", "    encoded = url.encode(\"utf-8\")\n    size = len(encoded)\n    if size + 2 > MAX_REQUEST_SIZE:  # +2 for CRLF\n")])
+LOC = "server/location.py"
+M("C13", "location-timeout-default-none", "breaking",
+  [(LOC, "LocationConfig.from_dict", "            timeout=data.get(\"timeout\", 30.0),\n", "            timeout=data.get(\"timeout\"),\n")],
+  "E8:server.location:LocationConfig.from_dict:timeout-absent-none")
+M("C18", "location-timeout-default-none", "breaking",
+  [(LOC, "LocationConfig.from_dict", "            timeout=data.get(\"timeout\", 30.0),\n", "            timeout=data.get(\"timeout\"),\n")],
+  "Z13:server.location:LocationConfig.from_dict:timeout-absent-none")
+M("C13", "benign-location-timeout-explicit-default", "benign",
+  [(LOC, "LocationConfig.from_dict", "        return cls(\n", "        timeout = data.get(\"timeout\")\n        if timeout is None:\n            timeout = 30.0\n\n        return cls(\n"),
+   (LOC, "LocationConfig.from_dict", "            timeout=data.get(\"timeout\", 30.0),\n", "            timeout=timeout,\n")])
+M("C14", "blank-tokens-dropped-in-handler-factory", "breaking",
+  [(CFGF, "ServerConfig.get_upload_handler", "        auth_tokens = set(self.titan_auth_tokens) if self.titan_auth_tokens else None\n",
+    "        auth_tokens = {t for t in self.titan_auth_tokens if t.strip()} if self.titan_auth_tokens else None\n")],
+  "U7:server.config:ServerConfig.get_upload_handler:token-list-rewritten")
+M("C14", "benign-token-set-comprehension", "benign",
+  [(CFGF, "ServerConfig.get_upload_handler", "        auth_tokens = set(self.titan_auth_tokens) if self.titan_auth_tokens else None\n",
+    "        auth_tokens = {t for t in self.titan_auth_tokens} if self.titan_auth_tokens else None\n")])
+M("C16", "verify-new-failing-verdict-unhandled", "breaking",
+  [(TF, "TOFUDatabase.verify", "        fingerprint = get_certificate_fingerprint(cert)\n", "        if cert is None:\n            return False, \"missing\"\n        fingerprint = get_certificate_fingerprint(cert)\n")],
+  "G10:client.session:GeminiClient._get_single")
